@@ -144,8 +144,13 @@ def h_session(ctx, n=6, trading='1m', data=('3m',), fast=False, free_open=(1,), 
         pe = ctx.real('pe', 50, 200)
     T = reading_strategy(tfs, with_entry=pe)
     cfg = S.config_dict('futures', fee=0.0, warm_up=warm)
-    rec = S.run_session(S.make_candles(rows), T, cfg, timeframe=trading, data_routes=[(S.SYMBOL, t) for t in data],
-                        warmup=warmup, fast=fast)
+    try:
+        rec = S.run_session(S.make_candles(rows), T, cfg, timeframe=trading, data_routes=[(S.SYMBOL, t) for t in data],
+                            warmup=warmup, fast=fast)
+    except (ValueError, IndexError, KeyError) as e:
+        # the statement quantifies over every series length (not necessarily a multiple of the timeframe) in both simulators
+        ctx.prove(False, 'C07:session-runs-for-every-series-length', {'n': n, 'trading': trading, 'fast': fast, 'error': '%s: %s' % (type(e).__name__, str(e)[:100])})
+        return
     reads = [pl for (t, h, pl) in rec.hooks if h == 'read']
     ctx.prove(len(reads) > 0, 'C07:strategy-read-at-least-once')
     for pl in reads:
@@ -205,6 +210,7 @@ def _jobs(tier):
         add(n=4, trading='1m', data=['3m'], fast=False, free_open=[], warm=0)
         add(n=5, trading='1m', data=['3m'], fast=False, free_open=[], warm=3, entry=True)  # a fill inside a minute publishes a partial candle
         add(n=6, trading='3m', data=['5m'], fast=True, free_open=[], warm=15)  # route timeframes that are not multiples of each other
+        add(n=7, trading='3m', data=[], fast=True, free_open=[], warm=0)  # session length that is not a multiple of the fast-mode step
     else:
         for fast in (False, True):
             add(n=7, trading='1m', data=['3m'], fast=fast, free_open=[1, 4], warm=3)
@@ -214,6 +220,9 @@ def _jobs(tier):
             add(n=5, trading='1m', data=['3m'], fast=fast, free_open=[1], warm=3, entry=True)
         add(n=4, trading='1m', data=['3m'], fast=False, free_open=[], warm=0)
         add(n=6, trading='3m', data=[], fast=True, free_open=[], warm=0)
+        add(n=7, trading='3m', data=[], fast=True, free_open=[], warm=0)
+        add(n=8, trading='3m', data=[], fast=True, free_open=[4], warm=3)
+        add(n=11, trading='5m', data=[], fast=True, free_open=[], warm=0)
     return jobs
 
 
